@@ -241,7 +241,10 @@ def answer (d : DState) (out : String) : DState × String := (d, out ++ " | " ++
 
 /-- answer of a per-process request: also the number of frames of that process -/
 def answerP (d : DState) (pid : Nat) (out : String) : DState × String :=
-  (d, out ++ " | " ++ renderView d.s ++ s!" frames={(framesOf d.s pid).length} stack={(stackOf d.s pid).length} locals={(localsOf d.s pid).length}")
+  let top := match stackOf d.s pid with
+    | v :: _ => renderVal d.s v
+    | [] => "-"
+  (d, out ++ " | " ++ renderView d.s ++ s!" frames={(framesOf d.s pid).length} stack={(stackOf d.s pid).length} locals={(localsOf d.s pid).length} top={top}")
 
 def c06Step (d : DState) (req : List Sx) : DState × String :=
   match req with
@@ -302,8 +305,10 @@ def c06Step (d : DState) (req : List Sx) : DState × String :=
       let stillAwaiting := (awaitersOf s pid).filter (fun a => match s.getProc a with
         | some p => p.result.isNone
         | none => false)
-      let failed := if failedNow then stillAwaiting.map (fun a => (a, pid)) ++ d.failed else d.failed
-      let s := match o with | .fail => s | _ => notifyAwaiters s pid
+      -- (a stack underflow at completion returns early: nobody is notified)
+      let notified := match o with | .fail => false | _ => true
+      let failed := if failedNow && notified then stillAwaiting.map (fun a => (a, pid)) ++ d.failed else d.failed
+      let s := if notified then notifyAwaiters s pid else s
       answerP { d with s := s, failed := failed } pid (renderOut s o)
     | none => (d, "bad-request")
   | [.list [.atom "ppf"]] => answer { d with s := processPendingFree d.s } "ok"
